@@ -1,6 +1,12 @@
 package uu
 
-import "bytes"
+// Harnesses for C15 (uuencode is Perl-compatible and round-trips; decoding is total and pure).
+// Executed symbolically by symgo; compiled natively for replay / translator validation.
+
+import (
+	"bytes"
+	"errors"
+)
 
 // refPack is Perl's pack('u', src), written from the perldoc description: lines of at most
 // 45 input bytes; each line is chr(32+len), then for every 3-byte group (zero padded) four
@@ -37,17 +43,242 @@ func refChar(v uint32) byte {
 	return byte(32 + v)
 }
 
-// HarnessE1: AppendEncode(dst, src) == dst ++ refPack(src) for all src of length n.
+// refUnpack is Perl's unpack('u', text) for text made of newline-terminated lines: the
+// first character of a line gives the byte count (c-32)&63, each following group of four
+// characters yields three bytes of six bits each ((c-32)&63), and only `count` bytes of a
+// line are kept.
+func refUnpack(text []byte) []byte {
+	out := []byte{}
+	i := 0
+	for i < len(text) {
+		n := verifConcreteInt(int((text[i] - 32) & 63))
+		i++
+		got := 0
+		for got < n && i+3 < len(text) && text[i] != '\n' {
+			var w uint32
+			for k := 0; k < 4; k++ {
+				w = w<<6 | uint32((text[i+k]-32)&63)
+			}
+			i += 4
+			for k := 0; k < 3 && got < n; k++ {
+				out = append(out, byte(w>>(16-8*uint(k))))
+				got++
+			}
+		}
+		for i < len(text) && text[i] != '\n' {
+			i++
+		}
+		i++ // newline
+	}
+	return out
+}
+
+// encodedLenRef is the closed form of the encoded length: per full or partial line
+// 1 + 4*ceil(len/3) + 1.
+func encodedLenRef(n int) int {
+	full := n / 45
+	rem := n % 45
+	l := full * (1 + 60 + 1)
+	if rem > 0 {
+		l += 1 + 4*((rem+2)/3) + 1
+	}
+	return l
+}
+
+func sameBytes(a, b []byte) bool { return bytes.Equal(a, b) }
+
+// HarnessE1: AppendEncode(dst, src) == dst ++ refPack(src) for all src of length n, with a
+// symbolic pre-existing dst of length d (spare capacity s); MaxEncodedLen never under-estimates.
 func HarnessE1() {
 	n := verifParam("n")
+	d := verifParam("d")
 	src := nondetBytes(n, 0)
-	got := AppendEncode(nil, src)
-	want := refPack(src)
-	if verifCanary() && len(want) > 1 {
-		want[1] ^= 1
+	var dst []byte
+	if d >= 0 {
+		dst = nondetBytes(d, verifParam("s"))
 	}
+	pre := append([]byte{}, dst...)
+	got := AppendEncode(dst, src)
+	want := append(pre, refPack(src)...)
+	if verifCanary() && len(want) > len(pre)+1 {
+		want[len(pre)+1] ^= 1
+	}
+	verifObserve("enc", got)
 	verifAssert(len(got) == len(want), "E1.len")
-	verifAssert(bytes.Equal(got, want), "E1.bytes")
-	verifAssert(len(got) <= MaxEncodedLen(src), "E1.maxlen")
+	verifAssert(sameBytes(got, want), "E1.bytes")
+	verifAssert(len(got)-len(pre) == encodedLenRef(n), "E1.closedform")
+	verifAssert(len(got)-len(pre) <= MaxEncodedLen(src), "E1.maxlen")
 	verifReach("E1.end")
+}
+
+// HarnessE2: decoding the encoder's output (with this decoder and with the Perl reference)
+// returns the original bytes appended to the caller's buffer.
+func HarnessE2() {
+	n := verifParam("n")
+	d := verifParam("d")
+	src := nondetBytes(n, 0)
+	enc := AppendEncode(nil, src)
+	var dst []byte
+	if d >= 0 {
+		dst = nondetBytes(d, verifParam("s"))
+	}
+	pre := append([]byte{}, dst...)
+	dec, err := AppendDecode(dst, enc)
+	verifObserve("enc", enc)
+	verifObserve("dec", dec)
+	verifAssert(err == nil, "E2.noerr")
+	want := append(pre, src...)
+	if verifCanary() && len(want) > 0 {
+		want[len(want)-1] ^= 0x80
+	}
+	verifAssert(len(dec) == len(want), "E2.len")
+	verifAssert(sameBytes(dec, want), "E2.bytes")
+	verifAssert(sameBytes(refUnpack(enc), src), "E2.perl-unpack")
+	verifAssert(len(dec)-len(pre) <= MaxDecodedLen(enc), "E2.maxdecodedlen")
+	verifReach("E2.end")
+}
+
+func checkDecodeError(err error, nlines int, text []byte, label string) {
+	var de DecodeError
+	ok := errors.As(err, &de)
+	verifAssert(ok, label+".is-DecodeError")
+	if !ok {
+		return
+	}
+	verifAssert(de.Line >= 0 && de.Line < nlines, label+".line-in-range")
+	verifAssert(de.Offset >= 0 && de.Offset <= len(text), label+".offset-in-range")
+	kind := 0
+	switch de.Err.(type) {
+	case InvalidLengthCharacterError:
+		kind = 1
+	case InvalidEncodedCharacterError:
+		kind = 2
+	case IncorrectDataLenError:
+		kind = 3
+	default:
+		if de.Err == ErrInvalidDataLen {
+			kind = 4
+		}
+	}
+	verifAssert(kind != 0, label+".declared-kind")
+}
+
+// HarnessE3: the decoder is total on any single line of length L (no newline inside): no
+// panic, decoded bytes agree with the Perl reference whenever it accepts, errors locate the
+// problem, MaxDecodedLen never under-estimates.
+func HarnessE3() {
+	L := verifParam("L")
+	line := nondetBytes(L, 0)
+	for i := range line {
+		verifAssume(line[i] != '\n')
+	}
+	crlf := verifParam("crlf")
+	text := line
+	if crlf == 1 {
+		text = append(append([]byte{}, line...), '\r')
+	}
+	keep := append([]byte{}, text...)
+	dec, err := AppendDecode(nil, text)
+	verifObserve("dec", dec)
+	verifAssert(sameBytes(text, keep), "E3.src-unchanged")
+	if err != nil {
+		verifAssert(dec == nil, "E3.nil-on-error")
+		checkDecodeError(err, 1, text, "E3.err")
+		var de DecodeError
+		if errors.As(err, &de) {
+			verifAssert(de.Line == 0, "E3.err.line0")
+			verifAssert(de.Offset < len(text) || len(text) == 0, "E3.err.offset-inside")
+		}
+		verifReach("E3.error")
+		return
+	}
+	verifAssert(len(dec) <= MaxDecodedLen(text), "E3.maxdecodedlen")
+	if len(line) > 0 && !(crlf == 0 && line[len(line)-1] == '\r') {
+		want := refUnpack(append(append([]byte{}, line...), '\n'))
+		if verifCanary() && len(want) > 0 {
+			want[0] ^= 4
+		}
+		verifAssert(sameBytes(dec, want), "E3.agrees-with-perl")
+		verifReach("E3.decoded")
+	}
+	verifReach("E3.ok")
+}
+
+// HarnessE4: the decoder is total on arbitrary text of length M, newlines and CRs included.
+func HarnessE4() {
+	M := verifParam("M")
+	text := nondetBytes(M, 0)
+	keep := append([]byte{}, text...)
+	nl := 0
+	for i := range text {
+		if text[i] == '\n' {
+			nl++
+		}
+	}
+	dst := nondetBytes(2, 2)
+	pre := append([]byte{}, dst...)
+	dec, err := AppendDecode(dst, text)
+	verifObserve("dec", dec)
+	verifAssert(sameBytes(text, keep), "E4.src-unchanged")
+	verifAssert(sameBytes(dst[:2], pre), "E4.dst-prefix-unchanged")
+	if err != nil {
+		verifAssert(dec == nil, "E4.nil-on-error")
+		checkDecodeError(err, nl+1, text, "E4.err")
+		verifReach("E4.error")
+		return
+	}
+	verifAssert(len(dec) >= 2 && sameBytes(dec[:2], pre), "E4.result-extends-dst")
+	verifAssert(len(dec)-2 <= MaxDecodedLen(text), "E4.maxdecodedlen")
+	verifReach("E4.ok")
+}
+
+// HarnessE5: purity.  Neither function writes to its source (len bytes and spare capacity)
+// nor to the existing contents of its destination; legal aliasing (dst's spare capacity
+// lying directly behind src in the same array) does not change the result.
+func HarnessE5() {
+	n := verifParam("n")
+	spare := verifParam("spare")
+	alias := verifParam("alias")
+	var src, dst []byte
+	if alias == 1 {
+		buf := nondetBytes(n, 70)
+		src = buf[:n]
+		dst = buf[n:n]
+	} else {
+		src = nondetBytes(n, spare)
+		dst = nondetBytes(2, 3)
+	}
+	srcAll := append([]byte{}, src[:cap(src)]...)
+	dstPre := append([]byte{}, dst...)
+	enc := AppendEncode(dst, src)
+	verifAssert(sameBytes(src, srcAll[:n]), "E5.enc.src-unchanged")
+	if alias == 0 {
+		verifAssert(sameBytes(src[:cap(src)], srcAll), "E5.enc.src-spare-unchanged")
+	}
+	verifAssert(sameBytes(dst, dstPre), "E5.enc.dst-contents-unchanged")
+	verifAssert(sameBytes(enc[len(dstPre):], refPack(srcAll[:n])), "E5.enc.result")
+
+	// decoder: source is the encoded text with spare capacity, destination pre-filled
+	etext := append(make([]byte, 0, len(enc)+4), enc[len(dstPre):]...)
+	eAll := append([]byte{}, etext[:cap(etext)]...)
+	ddst := nondetBytes(1, 2)
+	dpre := append([]byte{}, ddst...)
+	dec, err := AppendDecode(ddst, etext)
+	verifAssert(err == nil, "E5.dec.noerr")
+	verifAssert(sameBytes(etext[:cap(etext)], eAll), "E5.dec.src-unchanged")
+	verifAssert(sameBytes(ddst, dpre), "E5.dec.dst-contents-unchanged")
+	verifAssert(len(dec) == 1+n && sameBytes(dec[1:], srcAll[:n]), "E5.dec.result")
+	verifReach("E5.end")
+}
+
+// HarnessE6: MaxEncodedLen / MaxDecodedLen arithmetic over a symbolic length (no slice is
+// built: the functions only look at len).  closed form <= bound for every n < 2^31.
+func HarnessE6() {
+	n := nondetInt()
+	verifAssume(n >= 0 && n < 1<<31)
+	enc := encodedLenRef(n)
+	bound := 63 * (1 + n/45) // the documented bound, restated; tied to the code by E1.maxlen
+	verifAssert(enc <= bound, "E6.closedform-le-bound")
+	verifAssert(enc >= 0, "E6.nonneg")
+	verifReach("E6.end")
 }
